@@ -274,6 +274,9 @@ pub struct Mon<K: El, V: El> {
     pub old_removed: bool,
     /// judge object lifetimes only (see `step_ledger_only`)
     pub ledger_only: bool,
+    /// number of new keys the immediately preceding capacity call (reserve / successful
+    /// try_reserve) promised to take without reallocation; consumed by the probe (C10)
+    pub promised: usize,
 }
 
 pub fn expected_r() -> usize {
@@ -309,6 +312,7 @@ impl<K: El, V: El> Mon<K, V> {
             fresh: 0,
             stats: Stats::default(),
             transcript: None,
+            promised: 0,
             since_growth: None,
             expected_r: expected_r(),
             focus: "",
@@ -553,6 +557,37 @@ impl<K: El, V: El> Mon<K, V> {
                     want,
                     ledger_live_ids(8)
                 );
+            }
+        }
+
+        // ---- headroom (C04, "equivalently" clause): the main table always has room for every
+        // element still in the old table plus the insertions needed to move them. A violation
+        // makes some later insertion panic, allocate or spin, so the history ends here. ----
+        if !is_zst::<K, V>() {
+            if let Some(o) = &st1.old {
+                let l = o.table.len;
+                let need = l + (l + r - 1) / r;
+                let room = st1.main.capacity.saturating_sub(st1.main.len);
+                if l > 0 && room < need {
+                    // a clone / clone_from whose product cannot take insertions the source can
+                    // take is not an equal, independent map either
+                    let more: &'static [&'static str] = if matches!(op.code, Code::CloneSwap | Code::CloneFrom) { &["C11"] } else { &[] };
+                    return Err(Viol {
+                        extra: Vec::new(),
+                        prop: "C04",
+                        more,
+                        msg: format!(
+                            "after {} the main table has room for {} more elements (capacity {} - len {}) but {} are still in the old table and moving them takes {} insertions: {} needed",
+                            enc(),
+                            room,
+                            st1.main.capacity,
+                            st1.main.len,
+                            l,
+                            (l + r - 1) / r,
+                            need
+                        ),
+                    });
+                }
             }
         }
 
